@@ -176,17 +176,22 @@ func VerifIsAffected() {
 	}
 
 	rtype, nameMatch, ecoMatch, listed := "ECOSYSTEM", true, true, false
+	nameChoice := 0
 	if !simple {
 		rtype = []string{"ECOSYSTEM", "SEMVER", "GIT"}[verifrt.Choice("rtype", 3)]
-		nameMatch = verifrt.Choice("name", 2) == 0
+		nameChoice = verifrt.Choice("name", 3) // 0: the package's name, 1: another name, 2: the name in another case
+		nameMatch = nameChoice == 0
 		ecoMatch = verifrt.Choice("eco", 2) == 0
 		listed = verifrt.Choice("listed", 2) == 1
 	}
 
 	aff := osvschema.Affected{}
 	aff.Package.Name = "pkg"
-	if !nameMatch {
+	switch nameChoice {
+	case 1:
 		aff.Package.Name = "other"
+	case 2:
+		aff.Package.Name = "PKG" // package names are case-sensitive
 	}
 	aff.Package.Ecosystem = eco
 	if !ecoMatch {
@@ -197,6 +202,10 @@ func VerifIsAffected() {
 		lb := verifrt.Byte("listed")
 		verifrt.Assume(verifrt.And(lb >= '1', lb <= '9'))
 		aff.Versions = []string{"0.0.1", verifVersion(eco, lb)}
+		if verifrt.Choice("listed-order", 2) == 1 {
+			// the explicit list is not ordered
+			aff.Versions = []string{verifVersion(eco, lb), "0.0.1"}
+		}
 		listedHit = verifrt.StrEq(verifVersion(eco, lb), queried)
 	}
 	aff.Ranges = []osvschema.Range{{Type: osvschema.RangeType(rtype), Events: events}}
